@@ -44,6 +44,7 @@ type Engine struct {
 	outOfLine   map[string]bool // "qualified struct type.field": struct-typed field whose address escapes
 	workDir     string
 	hints       *hintStore
+	crossCheck  bool // thorough tier: a proof found by one solver family is re-checked by the other
 	updateHints bool
 	timeoutS    int
 	verbose     bool
@@ -275,6 +276,8 @@ type OblResult struct {
 }
 
 type FuncResult struct {
+	fn        *ssa.Function // for the replay of failed obligations
+	fc        *FuncContract
 	Func      string
 	Contract  string
 	Error     string // unsupported / spec error
@@ -334,6 +337,7 @@ var genMu sync.Mutex
 
 // verifyFunc generates and discharges the VCs of one function.
 func (eng *Engine) verifyFunc(fn *ssa.Function, fc *FuncContract) (res FuncResult) {
+	res.fn, res.fc = fn, fc
 	res.Func = fn.String()
 	res.Contract = fmt.Sprintf("%s:%d", fc.File, fc.Line)
 	start := time.Now()
@@ -405,6 +409,26 @@ func (eng *Engine) verifyFunc(fn *ssa.Function, fc *FuncContract) (res FuncResul
 		if hint := eng.hints.get(fullName); hint != nil && o.Kind != "cover" {
 			ht, _, _ := hintedText(text, hint)
 			hr := solveWith(eng.workDir, name+".hint", ht, minInt(to, 10), []string{"z3-5.1.0", "z3-4.8.12", "cvc5-1.0"})
+			if hr.status == "unsat" {
+				if eng.crossCheck {
+					// independent confirmation by a solver of the other family (z3 vs cvc5) on the same query
+					other := []string{"cvc5-1.0"}
+					if strings.HasPrefix(hr.backend, "cvc5") {
+						other = []string{"z3-5.1.0", "z3-4.8.12"}
+					}
+					cr := solveWith(eng.workDir, name+".hint.x", ht, to, other)
+					switch cr.status {
+					case "unsat":
+						hr.backend += "+confirmed:" + cr.backend
+					case "sat":
+						// the two families disagree: do not accept the proof
+						hr.status = "unknown"
+						hr.output = "solver disagreement on the hinted query: " + hr.backend + " says unsat, " + cr.backend + " says sat"
+					default:
+						hr.backend += "+unconfirmed"
+					}
+				}
+			}
 			if hr.status == "unsat" {
 				hr.backend += "+hint"
 				res.Obls[i] = OblResult{Obligation: o, Status: hr.status, Backend: hr.backend, TimeS: hr.timeS, Output: hr.output, File: filepath.Join(eng.workDir, sanitizeFile(name)+".hint.smt2")}
